@@ -156,6 +156,11 @@ def shard(acc, item, tier, seed):
                         for reach in (None, 1, 2, 5, 100):
                             _run_case(acc, r, reach, None)
                             _run_case(acc, r, reach, 125)
+                            # the same run together with a short range in ANOTHER bank (lower and higher): the applicable default
+                            # limit is per bank (1968 coils/statuses, 123 registers), whatever else is merged in the same call
+                            for other in ((1, 2), (10001, 1), (30001, 3), (40001, 2), (400001, 1)):
+                                if bank(other[0]) != bank(base):
+                                    _run_case(acc, (other,) + r, reach, None)
     elif what == "shatter":
         _, lo, hi = item
         for a in (1, 9999, 10001, 30001, 40001, 100001, 300001, 400001):
